@@ -341,11 +341,19 @@ func c15r4(c *core.Ctx) {
 		}
 		core.InspectNoLits(f.Body, func(x ast.Node) bool {
 			call, ok := x.(*ast.CallExpr)
-			if !ok || len(call.Args) != 1 {
+			if !ok || len(call.Args) == 0 {
 				return true
 			}
+			// the capacity-adjusting function: a method of the table, or a function taking the table
 			k, cal, _ := m.Callee(call)
-			if k != core.CallStatic || cal.Recv != "table" {
+			if k != core.CallStatic || cal == nil || cal.Body == nil || cal.Sig == nil {
+				return true
+			}
+			capArg := call.Args[len(call.Args)-1]
+			switch {
+			case cal.Recv == "table" && len(call.Args) == 1:
+			case cal.Recv == "" && len(call.Args) == 2 && isPtrTo(cal.Sig.Params().At(0).Type(), "table"):
+			default:
 				return true
 			}
 			directCap := false
@@ -362,7 +370,7 @@ func c15r4(c *core.Ctx) {
 			if !directCap {
 				return true
 			}
-			if inner, ok := ast.Unparen(call.Args[0]).(*ast.CallExpr); ok {
+			if inner, ok := ast.Unparen(capArg).(*ast.CallExpr); ok {
 				if k2, r, _ := m.Callee(inner); k2 == core.CallStatic && r.Recv == "" {
 					round = r
 				}
